@@ -28,6 +28,7 @@ from __future__ import annotations
 
 import ast
 import contextlib
+import copy
 import dataclasses
 import datetime
 import operator
@@ -445,8 +446,11 @@ def load(val: _T) -> PythonValueT | _T:
     Args:
         val: The value to decode.
     """
+    if not inspection.istexttype(val.__class__):
+        return val
     # Decode first: `strload` is memoized and bytearray/writable memoryview aren't hashable.
-    return strload(decode(val)) if inspection.istexttype(val.__class__) else val  # type: ignore[arg-type]
+    # Copy: never hand the memoized container itself to a caller who may mutate it.
+    return copy.deepcopy(strload(decode(val)))  # type: ignore[arg-type]
 
 
 @compat.lru_cache(maxsize=100_000)
